@@ -296,6 +296,9 @@ def _eq_val(a, b):
 
 def _compare(ctx, desc, f0, spec, ref, m, A, history):
     bad = []
+    if desc['seed'][-1] % 2:
+        from gen.poke import poke
+        poke(m, ctx)
 
     def V(kind, msg, **kw):
         ctx.violation(kind, desc, '%s (after %r)' % (msg, history), dict(f0, **kw))
